@@ -628,7 +628,7 @@ pub fn c11(ctx: &Ctx) -> Report {
     rep.evaluations += rates.len() as u64 * (nf + 65) * 5;
     rep.subruns.push(json!({"engine": "E2-sweep", "what": "frequency x sample-rate grid, one tick from 5 start phases", "rates": rates, "frequencies_per_rate": nf + 65}));
     // (c)
-    for (fs, d) in [(1000.0f32, if ctx.tier.is_thorough() { 7 } else { 5 }), (192000.0, if ctx.tier.is_thorough() { 6 } else { 4 })] {
+    for (fs, d) in [(1000.0f32, if ctx.tier.is_thorough() { 6 } else { 5 }), (192000.0, if ctx.tier.is_thorough() { 5 } else { 4 })] {
         let m = LfoM::new(fs, vec![0.0, 1.0, fs / 16777216.0, fs / 4.0, fs * 0.999, fs, fs / 16777216.0 * 1000.7, fs / 16777216.0 * 1001.2], vec![0.0, 0.25, 0.999_999_9, 0.999_999_94, -0.3, 7.5, -1.0e10]);
         explore(m, &ExploreCfg { max_depth: Some(d), state_cap: 50_000_000, threads: ctx.threads, label: format!("lfo histories fs={} depth {}", fs, d) }, &mut rep, &["C11"]);
     }
